@@ -158,6 +158,10 @@ fn run_case(check: &Check, c: &Value) -> CaseResult {
             check.count("replay:coord", true);
             coords::replay(c)
         }
+        "wdt-version-rule" => {
+            check.count(&format!("wdt-version-rule:{}", wdt::VNAMES[to as usize]), false);
+            wdt::check_version_rule(to, c["wmo_only"].as_bool().unwrap_or(false))
+        }
         "wdt" => wdt_case(check, &serde_json::from_value(c["model"].clone()).map_err(bad)?),
         "wdt-convert" => wdt_convert_case(check, &serde_json::from_value(c["model"].clone()).map_err(bad)?, to),
         "wdt+convert" => {
@@ -199,7 +203,7 @@ fn main() {
          points per tile computed independently in f64). WDT: abstract map definitions (64x64 grid = fill pattern [none / every tile / \
          hashed density] + explicit tiles biased to corners and edges; any of the 16 MPHD flag bits; legacy words or 7 file ids; MAID \
          with 0..9 sections on 8.x+; MWMO names and MODF placements, present according to the version rule, off-rule combinations at low \
-         rate) built through the public API for each of the 10 versions, plus a deterministic grid version x {terrain, WMO-only} x 12 \
+         rate) built through the public API for each of the 10 versions (and the version rule itself, 10 versions x 2 map kinds, against the documented table), plus a deterministic grid version x {terrain, WMO-only} x 12 \
          grid shapes x MAID; each also converted (grid: to all 10 versions; random: to one). WDL: tile sets (same fill patterns) with \
          545 hashed heights per tile, hole masks, WMO names/MWID/MODF (WotLK..WoD), four ML lists (Legion+), 10 versions, plus a grid \
          version x 9 shapes x {bare, all optional content}; conversions likewise. non-trivial = the grid is asymmetric (some tile differs \
@@ -237,6 +241,11 @@ fn main() {
 
     // 2. WDT essential grid, every case also converted to all ten versions
     let mut list = vec![];
+    for v in 0..10u8 {
+        for wmo_only in [false, true] {
+            list.push(json!({"kind":"wdt-version-rule","to":v,"wmo_only":wmo_only}));
+        }
+    }
     for (_name, m) in wdt::essential_grid() {
         let mv = serde_json::to_value(&m).unwrap();
         list.push(json!({"kind":"wdt","model":mv}));
